@@ -115,7 +115,7 @@ pub struct RunResult {
 /// Builds the start world (boot + scripted prefix). Violations inside the prefix are
 /// reported like any other (path = the prefix so far).
 pub fn start_world(scen: &'static Scenario, ctx: &mut Ctx) -> Option<World> {
-    let mut w = World::new(scen);
+    let mut w = World::new(scen, ctx);
     for a in &scen.prefix {
         // scripted prefixes must be executable: a typo is a machinery error, not a verdict
         match a {
